@@ -7,7 +7,7 @@ Model: `PySMT/Impl/Walker.lean` mirrors `DagWalker` *after the F22 repair* (`wal
 clears a one-shot memo in a `finally:` block).  The callback `f` of the theorems may do anything as long as it
 returns the function `f0`'s value whenever it returns (`Refines f f0`): it may raise on its own (ill-typed
 substitution deep in a DAG, unsupported operator), and it may raise at the k-th invocation (its first argument is
-the invocation count) -- injected faults at every point of the traversal.  Graph, callbacks, initial state, node,
+the trace of the earlier invocations) -- injected faults at every point of the traversal.  Graph, callbacks, initial state, node,
 budget of the failing call: all universally quantified.
 
 Not covered by these theorems (covered by the correspondence run only): the SMT-LIB parser's caches, scripts and
